@@ -763,8 +763,39 @@ def gen_feat2():
              expect=dict(margin=True, page_w=260, page_h=160, sentinels=W, line_height=12, fault_words={"lf.otf": ["f001", "f002"], "cs.css": ["f001", "f002"]}))
 
 
+def gen_feat3():
+    # running strings assigned on the first pages only, displayed on all pages (first / start / last / first-except)
+    css = ("@page { size: 240px 150px; margin: 24px 10px 10px 10px; @top-left { content: string(chap); font-family: ahem; font-size: 8px } @top-center { content: string(chap, first) \" \" string(sec, last); font-family: ahem; font-size: 8px }"
+           " @top-right { content: string(chap, first-except) string(sec, start); font-family: ahem; font-size: 8px } @bottom-center { content: \"pg\" counter(page) \"of\" counter(pages); font-family: ahem; font-size: 8px; line-height: 8px } }\n"
+           + BASE + "h2 { string-set: chap content() } h3 { string-set: sec content() }\n")
+    body, flow = [], []
+    wi = 1
+    for i in range(3):
+        body.append("<h2>c%03d</h2><h3>s%03d</h3>" % (i + 1, i + 1)); flow += ["c%03d" % (i + 1), "s%03d" % (i + 1)]
+        ws = words("w", 30, wi); wi += 30; flow += ws
+        body.append(para(ws, 'style="break-after: page"'))
+    for i in range(5):
+        ws = words("w", 34, wi); wi += 34; flow += ws
+        body.append(para(ws))
+    body.append("<h3>s004</h3>"); flow.append("s004")
+    ws = words("w", 60, wi); flow += ws
+    body.append(para(ws))
+    scenario("feat-06", "feat", doc(css, "\n".join(body)), expect=dict(margin=True, page_w=240, page_h=150, sentinels=[w for w in flow if w.startswith("w")], line_height=12))
+
+    # unicode-range, escapes, odd-but-valid tokens at many places of a linked sheet (parser neighbourhood)
+    sheet = ('@charset "utf-8";\n@font-face { font-family: ur; src: local(Ahem), url(none.woff) format("woff"); unicode-range: U+0-7F, u+26, U+4??, U+30-39 }\n'
+             '@namespace svg url(http://www.w3.org/2000/svg);\n@media print and (min-width: 1px) { .a\\62 c { margin-left: +1.5e+0px; margin-top: -.5px; width: calc(100% - 2e1px) } }\n'
+             '.u { background: url( "data:image/png;base64,AAAA" ), url(x\\29 y.png); content: "a\\"b" \'c\\\'d\' "\\26 "; color: #abc; quotes: "\\201C" "\\201D" }\n'
+             'p:nth-child(2n+1):not(.x)::before, p:nth-of-type( -n + 3 ) { content: counter(c, lower-roman) attr(title) }\n'
+             '@page :first { margin: 1cm 2mm 3pt 4pc; @top-left-corner { content: "" } }\n@supports (display: grid) { .g { display: grid } }\n.e { width: 1e3px; height: 1E-1em; --v: { a: b }; transform: rotate(-1.5turn) translate(1px , -2%) }\n/* trailing comment */')
+    W = words("w", 12)
+    scenario("feat-07", "feat", doc(page_css(260, 160, 10) + BASE + ".ur { font-family: ur, ahem }\n", '<p class="abc u ur" title="t">%s</p><p class=e>%s</p>' % (" ".join(W[:6]), " ".join(W[6:])), '<link rel=stylesheet href="odd.css">'),
+             files={"odd.css": (sheet, dict(mime="text/css", kind="css"))}, expect=dict(margin=True, page_w=260, page_h=160, sentinels=W, line_height=12))
+
+
 def main():
     gen_pag()
+    gen_feat3()
     gen_feat2()
     gen_brk()
     gen_feat()
